@@ -107,8 +107,10 @@ def _pipeline(tier):
     res['divergence_samples'] = divs
     vio = []
     counts = {}
+    harness_errors = [(j[0], o[1]) for j, o in zip(jobs, out) if o[1] and o[1].startswith('HARNESS')]
+    res['harness_errors'] = harness_errors[:5]
     for j, o in zip(jobs, out):
-        if o[1]:
+        if o[1] and not o[1].startswith('HARNESS'):
             cl = crash_clause(o[1])
             by.setdefault(j[0], []).append((len(o[0]), cl + '|' + o[1][:200]))
     for tid, fl in sorted(by.items()):
@@ -156,6 +158,8 @@ def result(tier):
 def run(prop, tier):
     t0 = time.time()
     res = result(tier)
+    if res.get('harness_errors'):
+        raise C.MachineryError('the tracer itself failed (projection of a changed implementation?): %r' % (res['harness_errors'][0],))
     v = C.Verdict(prop)
     for x in res['violations']:
         if not x['clause'].startswith(prop + '.'):
